@@ -12,6 +12,8 @@ from vcgen import methods
 
 def run(chk):
     chk.level = "proof"
+    from props import native_diff
+    native_diff.run(chk, "C01")
     from props import backend_conformance
     backend_conformance.run(chk, "C01", names=("block_diag", "kron", "concat", "diag", "canonical", "eye", "cast", "expand", "permute", "moveaxis", "reshape", "conj", "where", "roll", "stack", "zeros_like", "ones_like", "promote_types", "zeros", "ones"))
     chk.assume("the 1e-6 relative rounding error of the float computation is out of reach: exact equality over C is proved")
